@@ -76,6 +76,11 @@ CORPUS = [
     (1104, ["E,-1,776d6c", "E,0,63617264", "T,1,6161", "X,2", "T,1,6262", "I,1,3", "X,1", "K,1"]),
     # root extracted and put back
     (2201, ["E,-1,53796e634d4c", "E,0,53796e63426f6479", "X,0", "I,-1,0", "E,-1,53796e634d4c"]),
+    # refused operations: a second root (add_tree / add_text / add_elt with a NULL parent on a rooted tree) and tree == NULL;
+    # the caller destroys the tree it offered (seeded C18_2: a library that took it over releases it twice)
+    (2201, ["E,-1,53796e634d4c", "R,-1,2202,73796e636d6c3a646576696e667c446576496e66,312e32", "T,-1,6161",
+            "ZR,0,2202,73796e636d6c3a646576696e667c446576496e66,312e32", "ZT,0,6161", "ZC,0", "ZL,0,78797a",
+            "R,0,2202,73796e636d6c3a646576696e667c446576496e66,312e32"]),
 ]
 
 
@@ -295,6 +300,26 @@ def process(ctx, batch, harness, driver, tfile, vocab, total, kinds, nontrivial,
             pass
     if xml_lines:
         xa, xcu = flowtree_run.run_robust(harness, xml_lines)
+        # tie of the front-end model (Model/TreeGraph.v fe_doc, theorem C18_front_end_builds_the_denotation): on the
+        # documents it covers (elements, attributes, text) it must build the tree the real front end builds
+        fel, feown = [], []
+        for k, (c, lastdump, tr, doc) in enumerate(xml_case):
+            sp = c18lib.fe_spec(c["tree"][0]) if c.get("tree") else None
+            if sp is not None:
+                fel.append("fe %d %s" % (c["lang"], sp))
+                feown.append(k)
+        fea, _ = common.run_lines(driver, fel, env=common.run_env({"C18_TABLES": tfile})) if fel else ([], [])
+        for k, a in zip(feown, fea):
+            x = xa[k]
+            if x is None or a is None:
+                continue
+            head = x.split(" ")[0]
+            if not head.startswith("ok%d#" % xml_case[k][0]["lang"]):
+                continue
+            total["front_end_model_compared"] = total.get("front_end_model_compared", 0) + 1
+            if a != head:
+                corr.append({"kind": "front-end-model", "input": fel[feown.index(k)], "xml": xml_case[k][3].decode("utf-8", "replace"),
+                             "c_parsed_tree": head[:600], "model": a[:600]})
         for cu in xcu:
             concrete.append({"kind": "crash-or-sanitizer-report-xml", "input": cu["input"], "rc": cu["rc"], "stderr": cu["stderr"],
                              "note": cu.get("note")})
